@@ -318,6 +318,9 @@ Definition import_result (T : symtab) (d : dfile) : symtab * list ecls :=
     end
   end.
 
+Fixpoint assoc_name {A} (n : name) (l : list (name * A)) : option A :=
+  match l with [] => None | (m, v) :: r => if name_eqb n m then Some v else assoc_name n r end.
+
 (* ---- extension declarations (linker/validate.go validateExtension) ---- *)
 (* an extension range of the descriptor with its options as written; None = no options at all *)
 Record xrange := mkXRange { xr_rng : Z * Z; xr_opts : option xopts }.
@@ -408,6 +411,81 @@ Definition scalar_name (s : scalar) : name :=
   | SSfixed64 => [115;102;105;120;101;100;54;52] | SSint32 => [115;105;110;116;51;50] | SSint64 => [115;105;110;116;54;52]
   end%N.
 
+(* ---- linker/validate.go validateExtensionDeclarations: the declarations themselves ---- *)
+Fixpoint split_dots_acc (s cur : name) : list name :=
+  match s with
+  | [] => [cur]
+  | c :: r => if N.eqb c dotc then cur :: split_dots_acc r [] else split_dots_acc r (cur ++ [c])
+  end.
+(* protoreflect.FullName.IsValid *)
+Definition full_name_valid (s : name) : bool := forallb is_identifier (split_dots_acc s []).
+
+Definition all_scalars : list scalar :=
+  [SDouble; SFloat; SInt64; SUint64; SInt32; SFixed64; SFixed32; SBool; SString; SBytes; SUint32; SSfixed32; SSfixed64; SSint32; SSint64].
+Definition is_builtin_type_name (t : name) : bool := existsb (fun s => name_eqb t (scalar_name s)) all_scalars.
+
+(* extDecls of linker.Symbols: declared extension name -> (extendee, number) *)
+Definition xnames := list (name * (name * Z)).
+
+Fixpoint mem_Z (z : Z) (l : list Z) : bool := match l with [] => false | x :: r => (z =? x) || mem_Z z r end.
+
+(* the loop over the declarations of one range; [seen] = declsByTag, [T] = the table of names *)
+Fixpoint xdecl_wf_loop (msg : name) (rng : Z * Z) (ds : list xdecl) (seen : list Z) (T : xnames) : list ecls * xnames :=
+  match ds with
+  | [] => ([], T)
+  | d :: r =>
+    let '(e1, seen1) :=
+      match xd_number d with
+      | None => ([EExtDeclBad], seen)
+      | Some n => if (n <? fst rng) || (n >=? snd rng) then ([EExtDeclBad], seen)
+                  else if mem_Z n seen then ([EExtDeclBad], seen) else ([], n :: seen)
+      end in
+    let '(e2, T1) :=
+      match xd_full_name d with
+      | None => (if xd_reserved d then [] else [EExtDeclBad], T)
+      | Some fnm =>
+        let nodot := negb (match fnm with c :: _ => N.eqb c dotc | [] => false end) in
+        let bare := if nodot then fnm else tl fnm in
+        let ea := if nodot then [EExtDeclBad] else [] in
+        let eb := if full_name_valid bare then [] else [EExtDeclBad] in
+        let num := opt_Z (xd_number d) in
+        match assoc_name bare T with
+        | Some (m0, n0) => (ea ++ eb ++ (if name_eqb m0 msg && (n0 =? num) then [] else [EExtDeclBad]), T)
+        | None => (ea ++ eb, (bare, (msg, num)) :: T)
+        end
+      end in
+    let e3 :=
+      match xd_type d with
+      | None => if xd_reserved d then [] else [EExtDeclBad]
+      | Some t => match t with
+                  | c :: rest => if N.eqb c dotc then (if full_name_valid rest then [] else [EExtDeclBad])
+                                 else if is_builtin_type_name t then [] else [EExtDeclBad]
+                  | [] => [EExtDeclBad]
+                  end
+      end in
+    let e4 := if xd_reserved d && negb (Bool.eqb (is_some (xd_full_name d)) (is_some (xd_type d))) then [EExtDeclBad] else [] in
+    let '(er, T2) := xdecl_wf_loop msg rng r seen1 T1 in
+    (e1 ++ e2 ++ e3 ++ e4 ++ er, T2)
+  end.
+
+Fixpoint xranges_wf (msg : name) (xrs : list xrange) (T : xnames) : list ecls * xnames :=
+  match xrs with
+  | [] => ([], T)
+  | x :: r =>
+    let '(e, T1) :=
+      match xr_opts x with
+      | Some o =>
+        match xo_decls o with
+        | [] => ([], T)
+        | ds =>
+          let e0 := match xo_verification o with Some false => [EExtDeclBad] | _ => [] end in
+          let '(e1, T1) := xdecl_wf_loop msg (xr_rng x) ds [] T in (e0 ++ e1, T1)
+        end
+      | None => ([], T)
+      end in
+    let '(er, T2) := xranges_wf msg r T1 in (e ++ er, T2)
+  end.
+
 (* ---- what a file can see ---- *)
 Record cfile := mkCFile { cf_name : name; cf_desc : dfile; cf_syms : list sym;
                          cf_xdecls : list (name * list xrange) }.
@@ -449,9 +527,12 @@ Definition all_visible_syms (cs : list cfile) (d : dfile) : list sym :=
 Record cfg := mkCfg {
   c_spec_lookup : bool;      (* resolve names with Spec.lookup instead of go_resolve *)
   c_protoc_json : bool;      (* JSON-name conflicts as protoc's CheckFieldJsonNameUniqueness *)
-  c_spec_extdecl : bool      (* extension declarations: the containing range, not the Go loop *)
+  c_spec_extdecl : bool;     (* extension declarations: the containing range, not the Go loop *)
+  c_extdecl_span_repaired : bool  (* fixes/C01-extdecl-missing-span-file.diff applied: no panic for an
+                                     undeclared extension whose extendee is in another file *)
 }.
-Definition go_cfg : cfg := mkCfg false false false.
+Definition go_cfg : cfg := mkCfg false false false false.
+Definition go_cfg_repaired : cfg := mkCfg false false false true.
 
 Definition sres_to_gres (r : ProtocLookup.Spec.sres) : Resolve.gres :=
   match r with
@@ -767,8 +848,6 @@ Definition has_presence (syn : syntax) (fd : dfield) : bool :=
 Definition has_custom_json (fd : dfield) : bool :=
   match find_fopts OJsonName (df_opts fd) with [] => false | _ => true end.
 
-Fixpoint assoc_name {A} (n : name) (l : list (name * A)) : option A :=
-  match l with [] => None | (m, v) :: r => if name_eqb n m then Some v else assoc_name n r end.
 
 (* validateFieldJSONNames: [seen] maps a JSON name to (custom?) of the field that owns it;
    the result lists (is an error?) for every reported conflict *)
@@ -866,38 +945,56 @@ Definition validate_field_link (L : lctx) (parent : name) (fd : dfield) : list e
       | Some (_ :: x) =>
         let xrs := match assoc_name x (lc_xdecls L) with Some l => l | None => [] end in
         (if c_spec_extdecl (lc_cfg L) then spec_ext_decl_errs EExtDeclMissing
-         else go_ext_decl_errs (if lc_xself L x then EExtDeclMissing else ECompilerPanic))
+         else go_ext_decl_errs (if lc_xself L x || c_extdecl_span_repaired (lc_cfg L) then EExtDeclMissing else ECompilerPanic))
           xrs (df_number fd) (qual parent (df_name fd)) (field_type_name fd) (is_label (df_label fd) DRepeated)
       | _ => []
       end).
 
 (* walk.Descriptors with validateField / validateMessage / validateEnum *)
-Fixpoint validate_msg_link (L : lctx) (parent : name) (m : dmsg) : list ecls :=
+Fixpoint validate_msg_link (L : lctx) (parent : name) (T : xnames) (m : dmsg) : list ecls * xnames :=
   match m with
   | DMsg nm fields nested enums exts _ _ _ _ _ _ =>
     let fq := qual parent nm in
-    (if c_protoc_json (lc_cfg L)
-     then map (fun _ => EJsonConflict)
-              (protoc_json_errors to_json_name (json_compliant (dfl_syntax (lc_self L))) (map jf_of fields))
-     else json_conflict_errs (json_compliant (dfl_syntax (lc_self L))) fields)
-    ++ flat_map (validate_field_link L fq) fields
-    ++ flat_map (validate_msg_link L fq) nested
-    ++ flat_map (validate_enum_link (dfl_syntax (lc_self L))) enums
-    ++ flat_map (validate_field_link L fq) exts
+    let '(ex, T1) := xranges_wf fq (match assoc_name fq (lc_xdecls L) with Some l => l | None => [] end) T in
+    let '(en, T2) :=
+      (fix go (T : xnames) (ms : list dmsg) : list ecls * xnames :=
+         match ms with
+         | [] => ([], T)
+         | c :: r => let '(ea, Ta) := validate_msg_link L fq T c in
+                     let '(eb, Tb) := go Ta r in (ea ++ eb, Tb)
+         end) T1 nested in
+    ((if c_protoc_json (lc_cfg L)
+      then map (fun _ => EJsonConflict)
+               (protoc_json_errors to_json_name (json_compliant (dfl_syntax (lc_self L))) (map jf_of fields))
+      else json_conflict_errs (json_compliant (dfl_syntax (lc_self L))) fields)
+     ++ ex
+     ++ flat_map (validate_field_link L fq) fields
+     ++ en
+     ++ flat_map (validate_enum_link (dfl_syntax (lc_self L))) enums
+     ++ flat_map (validate_field_link L fq) exts, T2)
   end.
 
-Definition validate_options (c : cfg) (cs : list cfile) (xself : list (name * list xrange)) (d : dfile) : list ecls :=
+Fixpoint validate_msgs_link (L : lctx) (parent : name) (T : xnames) (ms : list dmsg) : list ecls * xnames :=
+  match ms with
+  | [] => ([], T)
+  | c :: r => let '(ea, Ta) := validate_msg_link L parent T c in
+              let '(eb, Tb) := validate_msgs_link L parent Ta r in (ea ++ eb, Tb)
+  end.
+
+Definition validate_options (c : cfg) (cs : list cfile) (xself : list (name * list xrange)) (T : xnames) (d : dfile)
+  : list ecls * xnames :=
   let L := mkLCtx c cs d (universe_of cs d) (all_visible_syms cs d)
                   (xself ++ flat_map cf_xdecls (visible_deps cs d))
                   (fun x => is_some (assoc_name x xself)) in
-  flat_map (validate_msg_link L (pkg_of d)) (dfl_msgs d)
-  ++ flat_map (validate_enum_link (dfl_syntax d)) (dfl_enums d)
-  ++ flat_map (validate_field_link L (pkg_of d)) (dfl_exts d).
+  let '(em, T1) := validate_msgs_link L (pkg_of d) T (dfl_msgs d) in
+  (em ++ flat_map (validate_enum_link (dfl_syntax d)) (dfl_enums d)
+      ++ flat_map (validate_field_link L (pkg_of d)) (dfl_exts d), T1).
 
 (* ------------------------------------------------------------------------------------------ *)
 (* Part 5: the pipeline *)
 
-Record cstate := mkCState { st_tab : symtab; st_exts : extnums; st_done : list cfile; st_failed : list name }.
+Record cstate := mkCState { st_tab : symtab; st_exts : extnums; st_done : list cfile; st_failed : list name;
+                           st_xnames : xnames }.
 
 Inductive fres := FOk (d : dfile) | FErr (first : ecls) | FDepFailed.
 
@@ -905,8 +1002,8 @@ Definition hd_err (es : list ecls) : option ecls := match es with [] => None | e
 
 (* one file: parse + basic validation; then, if every import compiled, link, interpret the
    pseudo-options, validate *)
-Definition compile_file (st : cstate) (f : sfile) : cstate * fres :=
-  let fail := fun st' e => (mkCState (st_tab st') (st_exts st') (st_done st') (sf_name f :: st_failed st'), e) in
+Definition compile_file (c : cfg) (st : cstate) (f : sfile) : cstate * fres :=
+  let fail := fun st' e => (mkCState (st_tab st') (st_exts st') (st_done st') (sf_name f :: st_failed st') (st_xnames st'), e) in
   match stage1 f with
   | e :: _ => fail st (FErr e)
   | [] =>
@@ -915,34 +1012,35 @@ Definition compile_file (st : cstate) (f : sfile) : cstate * fres :=
     then fail st FDepFailed
     else
       match import_result (st_tab st) d with
-      | (T, e :: _) => fail (mkCState T (st_exts st) (st_done st) (st_failed st)) (FErr e)
+      | (T, e :: _) => fail (mkCState T (st_exts st) (st_done st) (st_failed st) (st_xnames st)) (FErr e)
       | (T, []) =>
-        let '(d1, X, e2) := resolve_file go_cfg (st_done st) (st_exts st) d in
-        let st1 := mkCState T X (st_done st) (st_failed st) in
+        let '(d1, X, e2) := resolve_file c (st_done st) (st_exts st) d in
+        let st1 := mkCState T X (st_done st) (st_failed st) (st_xnames st) in
         match e2 with
         | e :: _ => fail st1 (FErr e)
         | [] =>
-          let '(d2, e3) := options_file go_cfg (st_done st) d1 in
+          let '(d2, e3) := options_file c (st_done st) d1 in
           match e3 with
           | e :: _ => fail st1 (FErr e)
           | [] =>
-            match validate_options go_cfg (st_done st) (file_xdecls f) d2 with
-            | e :: _ => fail st1 (FErr e)
-            | [] => (mkCState T X (st_done st ++ [mkCFile (sf_name f) d2 (file_syms d2) (file_xdecls f)]) (st_failed st), FOk d2)
+            match validate_options c (st_done st) (file_xdecls f) (st_xnames st) d2 with
+            | (e :: _, XN) => fail (mkCState T X (st_done st) (st_failed st) XN) (FErr e)
+            | ([], XN) => (mkCState T X (st_done st ++ [mkCFile (sf_name f) d2 (file_syms d2) (file_xdecls f)]) (st_failed st) XN, FOk d2)
             end
           end
         end
       end
   end.
 
-Fixpoint compile_files (st : cstate) (fs : list sfile) : list (name * fres) :=
+Fixpoint compile_files (c : cfg) (st : cstate) (fs : list sfile) : list (name * fres) :=
   match fs with
   | [] => []
-  | f :: r => let '(st1, res) := compile_file st f in (sf_name f, res) :: compile_files st1 r
+  | f :: r => let '(st1, res) := compile_file c st f in (sf_name f, res) :: compile_files c st1 r
   end.
 
 (* the files are given with every import before its importer *)
-Definition compile (fs : list sfile) : list (name * fres) := compile_files (mkCState [] [] [] []) fs.
+Definition compile_with (c : cfg) (fs : list sfile) : list (name * fres) := compile_files c (mkCState [] [] [] [] []) fs.
+Definition compile (fs : list sfile) : list (name * fres) := compile_with go_cfg fs.
 
 Definition accepts (fs : list sfile) : bool :=
   forallb (fun p => match snd p with FOk _ => true | _ => false end) (compile fs).
@@ -960,13 +1058,17 @@ Definition res_cls (r : fres) : option ecls :=
 (* files in compile order, the verdict, and per file the class of the first error reported for it *)
 Inductive c01_case := C01Case (files : list sfile) (ok : bool) (first : list (name * option ecls)).
 
-Definition c01_chk (c : c01_case) : bool :=
+Definition c01_chk_with (g : cfg) (c : c01_case) : bool :=
   match c with
   | C01Case fs ok first =>
-    Bool.eqb (accepts fs) ok
+    let res := compile_with g fs in
+    Bool.eqb (forallb (fun p => match snd p with FOk _ => true | _ => false end) res) ok
     && list_eqb (fun a b => name_eqb (fst a) (fst b) && opt_ecls_eqb (snd a) (snd b))
-                (map (fun p => (fst p, res_cls (snd p))) (compile fs)) first
+                (map (fun p => (fst p, res_cls (snd p))) res) first
   end.
+Definition c01_chk : c01_case -> bool := c01_chk_with go_cfg.
+(* the mirror after fixes/C01-extdecl-missing-span-file.diff *)
+Definition c01_chk_repaired : c01_case -> bool := c01_chk_with go_cfg_repaired.
 
 (* ---- descriptors: the projection compared for C02 ---- *)
 Definition opt_eqb {A} (eq : A -> A -> bool) (a b : option A) : bool :=
